@@ -1,5 +1,69 @@
 import FxVerif.Model.C11
 /-! helper lemmas for the C11 property theorems (core Lean only) -/
+
+/-! ### the hand-structured reading of `handlerTransferShares` (specification of the interpreter run)
+
+`Model.C11.VS.xferCore` interprets the instruction list regenerated from the Go body.  The four functions below are the
+same body read by hand as four phases (withdraw the sender / look the recipient up / rewrite the sender / rewrite
+the recipient); `xferCore_eq_spec` proves that the interpreter run on the reference program computes exactly their
+composition, and the property proofs then reason about the phases. -/
+namespace FxVerif.Model.C11
+open FxVerif.Gen.C11 (Cfg)
+
+/-- sender side of `handlerTransferShares` ("update from delegate, delete it if shares zero"); `v` is the stale
+validator object read at the start, `fsh` the stale copy of the sender's shares -/
+def VS.xferFrom (c : Cfg) (v v2 : VS) (from_ fsh X : Nat) : Except Err VS :=
+  -- `GetDelegatorStartingInfo` of an absent key yields the zero value, not an error
+  let fsi := (v2.sinfo from_).getD ⟨0, 0, 0⟩
+  if fsh < X then .error .negShares else
+  if fsh - X = 0 then
+    let a : VS := { v2 with del := setAt v2.del from_ none }
+    match (if c.decRefOnRemoval then a.decRef fsi.period else .ok a) with
+    | .error e => .error e
+    | .ok b => .ok (if c.delInfoOnRemoval then { b with sinfo := setAt b.sinfo from_ none } else b)
+  else
+    .ok { v2 with del := setAt v2.del from_ (some (fsh - X)),
+                  sinfo := setAt v2.sinfo from_ (some { fsi with stake := v.tokensFromSharesTrunc (fsh - X) }) }
+
+/-- recipient side ("update to delegate, set starting info if to not delegate before"); `toDel0` is the stale
+copy of the recipient's delegation looked up earlier -/
+def VS.xferTo (c : Cfg) (v v3 : VS) (h to X : Nat) (toDel0 : Option Nat) : Except Err VS :=
+  let base := if c.toLookupBeforeFromWrite then toDel0.getD 0 else (v3.del to).getD 0
+  let tsh := base + X
+  let v4 : VS := { v3 with del := setAt v3.del to (some tsh) }
+  match toDel0 with
+  | none =>
+    let p := v4.period - c.newToPeriodOffset
+    match (if c.incRefForNewTo then v4.incRef p else .ok v4) with
+    | .error e => .error e
+    | .ok v5 => .ok { v5 with sinfo := setAt v5.sinfo to (some ⟨p, v.tokensFromSharesTrunc X, h⟩) }
+  | some _ =>
+    let tsi := (v4.sinfo to).getD ⟨0, 0, 0⟩
+    .ok { v4 with sinfo := setAt v4.sinfo to (some { tsi with stake := v.tokensFromSharesTrunc tsh }) }
+
+/-- recipient lookup ("get to delegation"): new recipient → `IncrementValidatorPeriod(ctx, validator)` with the
+stale validator object, existing recipient → its rewards are withdrawn; returns reward coins paid to `to` -/
+def VS.xferLookup (c : Cfg) (v v1 : VS) (h to : Nat) : Except Err (VS × Nat) :=
+  match v1.del to with
+  | none =>
+    if c.incPeriodForNewTo then
+      match v1.incPeriod v.tokens with
+      | .error e => .error e
+      | .ok (v2, _) => .ok (v2, 0)
+    else .ok (v1, 0)
+  | some _ => if c.withdrawTo then v1.withdrawMsg h to else .ok (v1, 0)
+
+/-- the state-changing part of `handlerTransferShares` (after the guards): withdraw the sender's rewards, look up
+the recipient (the copy is kept, as in the Go code), rewrite the sender's side, rewrite the recipient's side -/
+def VS.specCore (c : Cfg) (v : VS) (h from_ to fsh X : Nat) : Except Err (VS × Nat × Nat) :=
+  (if c.withdrawFrom then v.withdrawMsg h from_ else .ok (v, 0)) >>= fun r1 =>
+  VS.xferLookup c v r1.1 h to >>= fun r2 =>
+  VS.xferFrom c v r2.1 from_ fsh X >>= fun v3 =>
+  VS.xferTo c v v3 h to X (r1.1.del to) >>= fun v4 =>
+  pure (v4, r1.2, r2.2)
+
+end FxVerif.Model.C11
+
 namespace FxVerif.Proofs.C11
 open FxVerif.Model.C11
 open FxVerif.Gen.C11 (Cfg)
@@ -188,10 +252,11 @@ theorem good_fields {c : Cfg} (h : good c = true) :
     c.selfGuard = true ∧ c.refuseRecvRedel = true ∧ c.sharesCmp = "LT" ∧ c.withdrawFrom = true ∧
     c.toLookupBeforeFromWrite = true ∧ c.withdrawTo = true ∧ c.incPeriodForNewTo = true ∧ c.decRefOnRemoval = true ∧
     c.delInfoOnRemoval = true ∧ c.incRefForNewTo = true ∧ c.newToPeriodOffset = 1 ∧ c.allowanceCheck = true ∧
-    c.allowanceSubDecrease = true ∧ c.transferFromArgs = true ∧ c.sharesPositive = true := by
+    c.allowanceSubDecrease = true ∧ c.transferFromArgs = true ∧ c.sharesPositive = true ∧ c.prog = refProg ∧
+    c.wrappers = wrappersRef := by
   simp only [good, Bool.and_eq_true, beq_iff_eq] at h
-  obtain ⟨⟨⟨⟨⟨⟨⟨⟨⟨⟨⟨⟨⟨⟨a1, a2⟩, a3⟩, a4⟩, a5⟩, a6⟩, a7⟩, a8⟩, a9⟩, a10⟩, a11⟩, a12⟩, a13⟩, a14⟩, a15⟩ := h
-  exact ⟨a1, a2, a3, a4, a5, a6, a7, a8, a9, a10, a11, a12, a13, a14, a15⟩
+  obtain ⟨⟨⟨⟨⟨⟨⟨⟨⟨⟨⟨⟨⟨⟨⟨⟨a1, a2⟩, a3⟩, a4⟩, a5⟩, a6⟩, a7⟩, a8⟩, a9⟩, a10⟩, a11⟩, a12⟩, a13⟩, a14⟩, a15⟩, a16⟩, a17⟩ := h
+  exact ⟨a1, a2, a3, a4, a5, a6, a7, a8, a9, a10, a11, a12, a13, a14, a15, a16, a17⟩
 
 theorem cmpShares_LT (a b : Nat) : cmpShares "LT" a b = decide (a < b) := by
   simp [cmpShares]
@@ -217,13 +282,92 @@ theorem bind_ok {α β : Type} {x : Except Err α} {g : α → Except Err β} {b
   | error e => cases h
   | ok a => exact ⟨a, rfl, h⟩
 
+set_option linter.unusedSimpArgs false in
+/-- the interpreter run on the reference program computes the composition of the four hand-read phases -/
+theorem xferCore_eq_spec {c : Cfg} (hg : good c = true) (v : VS) (h f t fsh X : Nat) :
+    VS.xferCore c v h f t fsh X = VS.specCore c v h f t fsh X := by
+  obtain ⟨-, -, -, g4, g5, g6, g7, g8, g9, g10, g11, -, -, -, -, gp, -⟩ := good_fields hg
+  unfold VS.xferCore VS.specCore
+  rw [gp]
+  simp only [g4, if_true]
+  simp only [refProg, interp, execStmt, execSimple, Env.addr]
+  cases h1 : v.withdrawMsg h f with
+  | error e => rfl
+  | ok r1 =>
+    obtain ⟨v1, c1⟩ := r1
+    simp only [bind, Except.bind]
+    unfold VS.xferLookup
+    simp only [g6, g7, if_true]
+    cases hd : v1.del t with
+    | none =>
+      simp only [evalCond, Loc.setDel, execSimples, execSimple, evalSE]
+      cases h2 : v1.incPeriod v.tokens with
+      | error e => rfl
+      | ok r2 =>
+        obtain ⟨v2, e2⟩ := r2
+        simp only [Loc.setInfo, Loc.del, Loc.info, evalSE]
+        unfold VS.xferFrom
+        by_cases hlt : fsh < X
+        · simp [hlt]
+        · simp only [hlt, if_false, Loc.setDel, evalCond, evalSE, Loc.del, g8, g9, if_true]
+          by_cases hz : fsh - X = 0
+          · simp only [hz, beq_self_eq_true, if_true, execSimples, execSimple, evalPE, Loc.info, Env.addr]
+            cases h3 : VS.decRef { v2 with del := setAt v2.del f none } ((v2.sinfo f).getD ⟨0, 0, 0⟩).period with
+            | error e => rfl
+            | ok v3 =>
+              simp only [evalSE, Loc.del, Loc.setDel, evalCond, Bool.not_false, execSimples, execSimple, evalPE, Loc.info,
+                Loc.setInfo, Env.addr, if_true]
+              unfold VS.xferTo
+              simp only [g5, g10, g11, if_true, Option.getD_none, Nat.zero_add]
+              cases h4 : VS.incRef { v3 with sinfo := setAt v3.sinfo f none, del := setAt v3.del t (some X) }
+                  (v3.period - 1) with
+              | error e => simp [h4]
+              | ok v4 => simp [h4, pure, Except.pure]
+          · have hz' : (fsh - X == 0) = false := by simp [hz]
+            simp only [hz, hz', if_false, execSimples, execSimple, evalSE, Loc.del, Loc.info, Loc.setInfo, Env.addr,
+              Loc.setDel, evalCond, Bool.not_false, evalPE, Bool.false_eq_true]
+            unfold VS.xferTo
+            simp only [g5, g10, g11, if_true, Option.getD_none, Nat.zero_add]
+            cases h4 : VS.incRef
+                { v2 with del := setAt (setAt v2.del f (some (fsh - X))) t (some X),
+                          sinfo := setAt v2.sinfo f (some { (v2.sinfo f).getD ⟨0, 0, 0⟩ with stake := v.tokensFromSharesTrunc (fsh - X) }) }
+                (v2.period - 1) with
+            | error e => simp [h4]
+            | ok v4 => simp [h4, pure, Except.pure]
+    | some tsh =>
+      simp only [evalCond, Loc.setDel, execSimples, execSimple, evalSE, Env.addr]
+      cases h2 : v1.withdrawMsg h t with
+      | error e => rfl
+      | ok r2 =>
+        obtain ⟨v2, c2⟩ := r2
+        simp only [Loc.setInfo, Loc.del, Loc.info, evalSE]
+        unfold VS.xferFrom
+        by_cases hlt : fsh < X
+        · simp [hlt]
+        · simp only [hlt, if_false, Loc.setDel, evalCond, evalSE, Loc.del, g8, g9, if_true]
+          by_cases hz : fsh - X = 0
+          · simp only [hz, beq_self_eq_true, if_true, execSimples, execSimple, evalPE, Loc.info, Env.addr]
+            cases h3 : VS.decRef { v2 with del := setAt v2.del f none } ((v2.sinfo f).getD ⟨0, 0, 0⟩).period with
+            | error e => rfl
+            | ok v3 =>
+              simp only [evalSE, Loc.del, Loc.setDel, evalCond, Bool.not_true, execSimples, execSimple, evalPE, Loc.info,
+                Loc.setInfo, Env.addr, if_true, Bool.false_eq_true, if_false]
+              unfold VS.xferTo
+              simp [g5, pure, Except.pure]
+          · have hz' : (fsh - X == 0) = false := by simp [hz]
+            simp only [hz, hz', if_false, execSimples, execSimple, evalSE, Loc.del, Loc.info, Loc.setInfo, Env.addr,
+              Loc.setDel, evalCond, Bool.not_true, evalPE, Bool.false_eq_true]
+            unfold VS.xferTo
+            simp [g5, pure, Except.pure]
+
 theorem xferCore_ok {c : Cfg} (hg : good c = true) {v v' : VS} {h f t fsh X rf rt : Nat}
     (ht : VS.xferCore c v h f t fsh X = .ok (v', rf, rt)) :
     ∃ v1 v2 v3, v.withdrawMsg h f = .ok (v1, rf) ∧
       VS.xferLookup c v v1 h t = .ok (v2, rt) ∧ VS.xferFrom c v v2 f fsh X = .ok v3 ∧
       VS.xferTo c v v3 h t X (v1.del t) = .ok v' := by
   obtain ⟨-, -, -, g4, -⟩ := good_fields hg
-  unfold VS.xferCore at ht
+  rw [xferCore_eq_spec hg] at ht
+  unfold VS.specCore at ht
   rw [g4, if_pos rfl] at ht
   obtain ⟨r1, h1, ht⟩ := bind_ok ht
   obtain ⟨r2, h2, ht⟩ := bind_ok ht
